@@ -98,6 +98,7 @@ def _recorder(M, rng):
             return getattr(rng, k)
 
     msg_delays = []
+    glob = dict(order=[], next_msg=0, delay={})     # global handler order, message delays by id
 
     class RecNode(M.MembershipProtocol):
         def __init__(self, *a, **kw):
@@ -133,6 +134,8 @@ def _recorder(M, rng):
             ups = [[_ix(u.get("member")), KIND.get(u.get("state"), 3), u.get("incarnation", 0)] for u in md.get("updates", [])]
             if "sent_ns" in md and md.get("destination") == self.name and et in ("MembershipPing", "MembershipAck"):
                 msg_delays.append(now - md["sent_ns"])
+                glob["delay"][md["msg_id"]] = now - md["sent_ns"]
+            glob["order"].append([_ix(self.name), len(self.steps)])
             if et == "MembershipProbeTick":
                 inp = ["tick", [bool(info.detector.is_available(now_s)) for info in self._members.values()]]
             elif et == "MembershipPing":
@@ -166,9 +169,12 @@ def _recorder(M, rng):
                             outs.append(["timer", 2, self.tid[id(ev)], ev.time.nanoseconds, _ix(m2.get("suspect"))])
                 else:
                     m2["sent_ns"] = now
+                    m2["msg_id"] = glob["next_msg"]
+                    glob["next_msg"] += 1
                     outs.append(["send", _ix(m2.get("destination")), ev.event_type == "MembershipAck", _ix(m2.get("from")),
                                  _ix(m2.get("indirect_for")), _ix(m2.get("ack_for")), m2.get("incarnation"),
-                                 [[_ix(u.get("member")), KIND.get(u.get("state"), 3), u.get("incarnation", 0)] for u in m2.get("updates", [])]])
+                                 [[_ix(u.get("member")), KIND.get(u.get("state"), 3), u.get("incarnation", 0)] for u in m2.get("updates", [])],
+                                 m2["msg_id"]])
             for i, ev in enumerate(self.timers):
                 if ev._cancelled and i not in self.cancel_seen:
                     self.cancel_seen.add(i)
@@ -182,6 +188,7 @@ def _recorder(M, rng):
                 self.phi_samples.append([_ix(nm), info.detector._heartbeat_count, now, ph if math.isfinite(ph) else 1e308])
             return res
 
+    RecNode.glob = glob
     return RecRandom, RecNode, msg_delays
 
 
@@ -220,6 +227,7 @@ def impl_cluster(case):
 
         def handle_event(self, event):
             self.victim._crashed = True
+            RecNode.glob["order"].append(["crash", _ix(self.victim.name)])
             return None
 
     saved = M.random
@@ -273,6 +281,7 @@ def impl_cluster(case):
             views=[nd.views for nd in nodes],
             phi=[nd.phi_samples for nd in nodes],
             max_delay=max(msg_delays, default=0),
+            glob=dict(order=RecNode.glob["order"], delay={str(k): v for k, v in RecNode.glob["delay"].items()}),
             crash_ns=Instant.from_seconds(case["crash"][1]).nanoseconds if case["crash"] else None,
         )
     finally:
@@ -406,6 +415,42 @@ def nontrivial_cluster(c, o):
         return sum(len(s) for s in o["steps"]) >= 6 * c["n"]
     return any(st == 2 for v in o["views"] for _, view in v for _, st, _ in view) or \
         any(x[1][0] in ("indirect", "susp") for s in o["steps"] for x in s)
+
+
+# --------------------------------------------------------------------------- the run as a path of Net.wstep
+def gen_world(rng):
+    while True:
+        c = gen_cluster(rng)
+        if c["mode"] in ("healthy", "slow") and not c["crash"]:
+            return c
+
+
+def encode_world(c, o):
+    """The handler calls of all nodes in the order the engine made them, each with the observed
+    delays of the messages it sent: checked inside Coq to be a path of the cluster relation
+    Net.wstep (C13/NetCheck.v ok_world, sound by ok_world_sound)."""
+    gs = []
+    end = max((st[-1][0] for st in o["steps"] if st), default=0)
+    dmax = o["max_delay"]
+    for node, k in o["glob"]["order"]:
+        if node == "crash":
+            gs.append(Ctor("CCrash", k))
+            continue
+        now, inp, outs, _post = o["steps"][node][k]
+        # a message still in flight when the run ended arrives after everything that was observed
+        delays = [o["glob"]["delay"].get(str(x[8]), end - now + 1) for x in outs if x[0] == "send"]
+        dmax = max([dmax] + delays)
+        g = (node, now, _input(inp), delays)
+        gs.append(Ctor("CG", g) if c["crash"] else g)
+    cfgs = [Ctor("mkCfg", *x) for x in o["cfg"]]
+    return term((cfgs, dmax, c["n"], o["cfg"][0][1], o["orders"], gs))
+
+
+def gen_cworld(rng):
+    while True:
+        c = gen_cluster(rng)
+        if c["mode"] in ("crash", "slow") and c["crash"]:
+            return c
 
 
 # --------------------------------------------------------------------------- direct drive of one node
@@ -579,6 +624,12 @@ FAMILIES = [
     Family("node", IMPORTS, "ok_node", "cfg * list Z * list Z * list obs_step", gen_node, impl_node,
            encode_node, oracle_node, lambda c, o: any(m[1] == 2 for st in o["steps"] for m in st[3]["members"]),
            describe=lambda c: f"peers={c['npeers']}"),
+    Family("world", "From HS Require Import Base.Prelude C13.Model C13.Net C13.NetCheck.", "ok_world",
+           "list cfg * Z * Z * Z * list (list Z) * list gstep", gen_world, impl_cluster, encode_world,
+           lambda c, o: [], lambda c, o: c["mode"] == "slow", parallel=True, describe=lambda c: f"{c['mode']},n={c['n']}"),
+    Family("cworld", "From HS Require Import Base.Prelude C13.Model C13.Net C13.NetCheck C13.NetCrashCheck.", "ok_cworld",
+           "list cfg * Z * Z * Z * list (list Z) * list cgstep", gen_cworld, impl_cluster, encode_world,
+           lambda c, o: [], lambda c, o: True, parallel=True, describe=lambda c: f"{c['mode']},n={c['n']}"),
     Family("phi", IMPORTS_PHI, "ok_phi", "nat * Q * option Q * list (dop * dobs)", gen_phi, impl_phi,
            encode_phi, oracle_phi, lambda c, o: any(x[3] == 3 for x in o["obs"])),
 ]
@@ -587,9 +638,10 @@ TRUSTED = [
     "Coq 8.16.1 kernel (coqc, vm_compute for case evaluation); no native_compute",
     "correspondence harness harness/props/c13.py (scenario generator, per-handler recorder, in-Coq replay ok_cluster / ok_phi)",
     "math.erfc / math.log10 / math.sqrt (libm): Section variables of C13/PhiModel.v with the order properties of the mathematical functions as hypotheses; float rounding of phi is not modelled",
-    "engine contract used by the cluster theorems (C13/Net.v): events are delivered in time order, cancelled events are skipped, a timer fires at the time it was created for (proved for the engine under C01)",
+    "cluster relations C13/Net.v / C13/NetCrash.v stand for the engine + Network (least timestamp first, cancelled events skipped, message = one event at now+delay); every recorded run of the world/cworld families is checked inside Coq to be a path of them (ok_world / ok_cworld, proved sound), runs not generated are covered by the engine property C01",
 ]
-FILES = ["C13/Model.v", "C13/PhiModel.v", "C13/Net.v", "C13/NodeProofs.v", "C13/PhiProofs.v", "C13/NetProofs.v", "C13/Props.v"]
+FILES = ["C13/Model.v", "C13/PhiModel.v", "C13/Net.v", "C13/NetCheck.v", "C13/NodeProofs.v", "C13/PhiProofs.v", "C13/NetProofs.v",
+         "C13/NetCheckProofs.v", "C13/ProbeOrder.v", "C13/NetCrash.v", "C13/NetCrashCheck.v", "C13/Props.v"]
 
 
 def _coq_cases_sharded(ctx):
@@ -598,7 +650,7 @@ def _coq_cases_sharded(ctx):
     from hsverif import coq
 
     def f(tag, imports, ok_fn, case_type, cases):
-        shard = 8 if tag == "cluster" else 40 if tag == "node" else 400
+        shard = {"cluster": 8, "world": 8, "cworld": 8, "node": 40}.get(tag, 400)
         return coq.eval_cases(f"{ctx.pid}_{tag}", imports, ok_fn, case_type, cases, shard=shard, workers=14)
     return f
 
@@ -607,7 +659,7 @@ def run(ctx):
     ctx.coq_cases = _coq_cases_sharded(ctx)
     ctx.prove(FILES, allowed_axioms=(), trusted_base=TRUSTED)
     stats = []
-    for fam, n in ((FAMILIES[0], ctx.n(50, 800)), (FAMILIES[1], ctx.n(150, 4000)), (FAMILIES[2], ctx.n(150, 4000))):
+    for fam, n in ((FAMILIES[0], ctx.n(30, 600)), (FAMILIES[1], ctx.n(100, 3000)), (FAMILIES[2], ctx.n(16, 400)), (FAMILIES[3], ctx.n(14, 300)), (FAMILIES[4], ctx.n(100, 3000))):
         stats.append(run_family(ctx, fam, n))
         ctx.log(f"family {fam.name}: {stats[-1]['cases']} cases, {stats[-1]['mismatches']} mismatches, "
                 f"{stats[-1]['oracle_failures']} oracle failures")
@@ -615,6 +667,11 @@ def run(ctx):
                             "non-trivial = long enough to pass the detection deadline (crash), >= 6 handler calls per node (healthy), "
                             "reaches the indirect/suspicion/DEAD paths (slow, adversarial); phi: query with elapsed > mean; distinct by JSON of the input")
     ctx.finish_obligations()
+    ctx.assumptions += [
+        "bounded-rounds detection is proved in pieces (c13_probed_within_two_rounds, c13_timeout_suspects, c13_silent_stays_non_alive, c13_tick_phi_suspects); their composition into 'non-ALIVE by crash + (2(n-1)+1) probe intervals + ack timeout' is checked by the oracle on every generated run with a stopped member, not proved",
+        "phi theorems are over exact rationals with erfc/log10/sqrt as hypotheses-constrained section variables; the float implementation's monotonicity is checked by the oracle (grid of 400 instants per query, every handler call of every run)",
+        "accuracy theorems assume 2*d < ack timeout (int(probe_interval*0.5*1e9) ns) and a symmetric full-knowledge start configuration (what add_member for every peer + start() produce)",
+    ]
 
 
 def replay(data):
